@@ -233,6 +233,21 @@ def case_eq(cls_name, n, cplx=False):
     return case
 
 
+def case_rotation_axis(ctx):
+    """rotation(theta, axis) does not depend on the representative of the axis point (in particular not on its sign)"""
+    from geometer import rotation, Point
+    from harness.C08 import _angle
+    th, c, s = _angle(ctx, "theta")
+    ax = [ctx.real(f"a{i}") for i in range(3)]
+    ctx.assume(R.nonzero(ctx, ax))
+    w1, w2 = ctx.real("w1"), ctx.real("w2")
+    ctx.assume(ctx.neg(ctx.is_zero(w1)))
+    ctx.assume(ctx.neg(ctx.is_zero(w2)))
+    T1 = rotation(th, axis=Point(mk_array(ctx, [w1 * x for x in ax] + [w1])))
+    T2 = rotation(th, axis=Point(mk_array(ctx, [w2 * x for x in ax] + [w2])))
+    ctx.require("rotation:axis-representative", R.proportional(ctx, E(T1.array), E(T2.array)))
+
+
 def cases(tier, seed):
     from geometer import join, meet, crossratio, dist, is_collinear, is_perpendicular
     Q, T = ("quick", "thorough"), ("thorough",)
@@ -245,6 +260,7 @@ def cases(tier, seed):
     add("eq_Point3_complex", case_eq("Point", 3, True), tiers=T, max_paths=6000)
     add("eq_Transformation3", case_eq("Transformation", 3), tiers=T, max_paths=20000)
     add("eq_Quadric3", case_eq("Quadric", 3), tiers=T, max_paths=20000)
+    add("rotation_axis_representative", case_rotation_axis, tiers=Q, max_paths=2000)
     rel = [
         ("contains2d", b_lp, lambda l, p: l.contains(p), [0, 1], Q),
         ("contains3d", b_ep, lambda e, p: e.contains(p), [0, 1], Q),
